@@ -5095,6 +5095,11 @@ class DfaCompileCtx:
             if next_target is None or next_target.is_fallthrough:
                 continue
 
+            # the set lookup falls back to the target's else transition if the symbols are split over several of its
+            # transitions; only shortcircuit if every symbol really continues the same way
+            if any(transition.target[x] is not next_target for x in effective):
+                continue
+
             # Are there actions? If so, does this violate the threshold
             if len(next_target.actions) > 0:
                 max_count = ProgramData.option(ProgramOption.MAX_SHORTCIRCUIT_FALLTHROUGH) - ProgramData.option(ProgramOption.MAX_SHORTCIRCUIT_ACTION_PENALTY)*(len(next_target.actions)-1)
